@@ -48,6 +48,7 @@ type Contract struct {
 	Ensures  []Clause
 	Modifies []Clause // each a designator expression; nil + ModNothing
 	ModSet   bool     // a modifies clause was given
+	ModAny   bool     // "modifies unspecified": no frame claim; callers havoc the heap
 	Loops    map[int]*LoopSpec
 	Asserts  []AssertAt
 	Nilable  map[string]bool
@@ -311,6 +312,10 @@ func (w *World) parseContractFile(path, pkgRel string) error {
 				if strings.TrimSpace(rest) == "nothing" {
 					break
 				}
+				if strings.TrimSpace(rest) == "unspecified" {
+					cur.ModAny = true
+					break
+				}
 				for _, d := range splitTop(rest, ';') {
 					cl, err := parseClause(strings.TrimSpace(d), path, rl.line)
 					if err != nil {
@@ -408,6 +413,9 @@ func splitTop(s string, sep byte) []string {
 func resolveType(x ast.Expr, pkg *types.Package) (types.Type, error) {
 	switch t := x.(type) {
 	case *ast.Ident:
+		if t.Name == "region" {
+			return types.Typ[types.UnsafePointer], nil // identity of a heap region (sort Int in both modes)
+		}
 		if o := types.Universe.Lookup(t.Name); o != nil {
 			if tn, ok := o.(*types.TypeName); ok {
 				return tn.Type(), nil
